@@ -280,6 +280,57 @@ CLAIMED = {
        "classifier; ASan/UBSan as detector.",
   technique="Lean 4 proof over translator-generated constants and code-shaped models + direct correspondence + sanitizer search (model validation / failing-input search)",
   ref="4/C01"),
+ "C08": dict(
+  text="Lean 4 theorems, unbounded over all particles / ContentSpecNode trees / member lists / declarations and all child sequences: "
+       "the executable judge pMatch (derivatives with occurrence counters and all-groups) equals the declarative particle language "
+       "(ranges as bounded repetition, all = permutations of a selection) (pMatch_iff); the code-shaped ComplexTypeInfo::expandContentModel / "
+       "convertContentSpecTree with the compact-syntax condition useRepeatingLeafNodes && !hasRepeatedLeaf preserve that language for every "
+       "Particle-Correct range, compact Loop syntax included (expand_preserves, convert_preserves), and chain to the C07 DFA model "
+       "(expand_dfa_iff); the schema-mode DFAContentModel model with counting states accepts exactly the particle language whenever no "
+       "Loop node is produced (counting_eq_unrolled_partial); AllContentModel (ctor + validateContent) accepts exactly the permutations "
+       "(all_iff_permutation, all_ctor); the wildcard namespace tests equal Structures 3.10.4 (wildcard_spec); "
+       "SubstitutionGroupComparator::isEquivalentTo equals 3.3.6 (substitution_closure_spec); the schema part of buildAttList (repaired: a "
+       "prohibited use admitted by the wildcard is no use) equals the attribute-use rules for every use set with distinct names "
+       "(attr_uses_iff, no further proviso). Tied to the code by (1) the real ComplexTypeInfo::getContentModel()+validateContent on EVERY child "
+       "sequence of length <=4 for ~1000 generated particles per run (Spec-judged; the code-shaped model incl. DFA counting states agrees with "
+       "the library on every evaluation) and (2) a document tier: typed component models rendered to XSD (two namespaces, import/include, groups, "
+       "attribute groups, extension/restriction, substitution groups, wildcards, xsi:type, xsi:nil), instances (exhaustive child sequences, "
+       "valid-by-construction, single-rule mutations) validated under {IG,SG}x{DOM,SAX2}x{full checking on/off}; verdict, PSVI type names, "
+       "defaulted attributes and element defaults judged by the executable Lean Spec; schemas violating component constraints must be reported at load.",
+  note="PARTIAL: counting_eq_unrolled is proved only when the conversion yields no Loop node (counting_eq_unrolled_partial); for trees converted "
+       "WITH Loop nodes (all leaves pairwise different since fix d7e638c) it is believed true but not proved - covered by the exhaustive "
+       "correspondence only (counting_repaired_witness records the repaired defect); validElem_iff is replaced by validElem_iff_partial / "
+       "validDoc_root (meaning of an empty violation list of the executable Spec) - scanStartTag / validateElement / checkContent have no "
+       "code-shaped model and are covered by the document-tier correspondence only; UPA and particle-derivation checking: decision table for the "
+       "generated families in tools/props/c08*.py; TraverseSchema not modelled (component model + renderXsd trusted); simple types opaque (C09). "
+       "5 fixes committed (compact Loop with repeated leaf, xsi:nil state, SGXMLScanner skip attDef, SGXMLScanner PSVI without grammar, prohibited "
+       "use vs wildcard); 6 open known findings (nilled element with children after a validated child, strict wildcard vs local declaration, prohibited ref to a global attribute with a value constraint, "
+       "xsi:type user simple type for complex declared type, xsi:type of an unassessed element leaks, empty sequence as choice branch). "
+       "Trusted: Lean kernel + propext/Classical.choice/Quot.sound; XV.Spec.Particle, XV.Spec.XsdValid as transcribed; harness and generators.",
+  technique="Lean 4 proof over code-shaped models + exhaustive model/implementation/Spec correspondence",
+  ref="4/C08"),
+ "C04": dict(
+  text="Lean 4 theorems over a code-shaped model of XMLReader's byte->character pipeline (refreshRawBuffer, the xcodeMoreChars "
+       "needMore/low-water loop, refreshCharBuffer, getNextChar/peekNextChar with handleEOL, skipped*/peekString, both constructors incl. "
+       "basicEncodingProbe/doInitDecode, setEncoding) composed with the C05 UTF-8 transcoder model (and ISO-8859-1/US-ASCII/UTF-16): for EVERY "
+       "partition of the byte stream into reads, every buffer geometry (charBuf>=2, rawBuf>=6, any low-water mark; instantiated with the "
+       "constants regenerated from XMLReader.hpp) the characters delivered by repeated getNextChar are the end-of-line-normalised whole-input "
+       "reading of the bytes (delivered_spec, refill_position_invariant, chars_chunk_invariant, eol_across_refill, wellformed_utf8_delivered = "
+       "composition with the C05 Spec), positions are a function of the delivered characters, xcodeMoreChars terminates, and the index "
+       "invariant holds in every reachable state for every modelled operation and constructor (reader_inv_reachable, shared with C01). "
+       "Tied to the code by (a) the real XMLReader driven directly over a chunked BinInputStream under 3-17 partitions per input vs the model "
+       "and vs the one-shot run, constructs slid across the offsets around the 16K-character / 48K-byte / low-water boundaries (quick tier: partitions and source types sampled per input, a quarter of the constructs - rotating with the seed - swept over every offset in [-8,+8], about 3 CPU-minutes; thorough: every construct, +-64), and (b) SAX2 "
+       "parses of the same bytes through MemBuf/LocalFile/StdIn/chunked sources in document, external DTD and external entity.",
+  note="PARTIAL where the code itself is chunk-dependent (each proved as a negative witness in Lean, reproduced on the library, recorded as OPEN known findings - decode-error position, BOM/auto-sensing from the first read - with the proposed patches kept in fixes/; two further defects found by this check, the long-name end tag at the buffer edge and getName on a lone high surrogate at end of entity, are repaired in /repo as de202f4 and af0c157 and stay in the generators): "
+       "for undecodable input only 'same exception, one delivered list a prefix of the other' holds (error_offset_depends_on_chunking); byte-order "
+       "mark and auto-sensing depend on the FIRST read (bom_depends_on_first_read, sniff_depends_on_first_read; sniff_partial proves independence "
+       "given equal first reads, bom_of_four given >=4 bytes). Not proved: look-ahead operations (skippedString/peekString/getName) deliver-equivalence "
+       "(index safety only; behaviour tied by correspondence), PE leading/trailing space in the delivery theorems, UCS-4/EBCDIC sensing, ICU transcoders, "
+       "the scanners above the reader (parse level is correspondence only: source types/partitions against each other and well-formed-by-construction "
+       "expectations). A truncated final sequence is Trans_BadSrcSeq in code, model and spec (DESIGN F1 as repaired in /repo). Trusted: Lean kernel + "
+       "propext/Classical.choice/Quot.sound; XV.Spec.Reader as transcribed; translator (ReaderConsts); harness hx_reader, generators, Python reference reading.",
+  technique="Lean 4 proof over a code-shaped reader model with translator-generated constants + model/implementation/partition correspondence",
+  ref="4/C04"),
 }
 
 def main():
